@@ -129,8 +129,12 @@ class Ctx:
                     argvals.extend(sv)
                 else:
                     argvals.append(ev.ev(a))
-            if len(argvals) > len(names):
+            va = m.node.args.vararg.arg if m.node.args.vararg is not None else None
+            if len(argvals) > len(names) and va is None:
                 return _oe.NOT_MODELLED
+            if va is not None:
+                env[va] = tuple(argvals[len(names):])  # *args: the surplus positional arguments
+                argvals = argvals[:len(names)]
             for n_, av in zip(names, argvals):
                 env[n_] = av
             for k in call.keywords:
